@@ -30,7 +30,15 @@ RECURSIVE PrintVs(_, _)
 PrintVs(xs, k) == IF k > Len(xs) THEN <<>> ELSE PrintV(xs[k]) \o <<" ">> \o PrintVs(xs, k + 1)
 RECURSIVE PrintKV(_, _)
 PrintKV(kv, k) == IF k > Len(kv) THEN <<>> ELSE PrintV(kv[k][2]) \o <<" ">> \o PrintV(kv[k][1]) \o <<" ">> \o PrintKV(kv, k + 1)
+\* strings (beyond the property's list, which names integers and bit-strings): a string prints between double quotes
+\* with `"` and `\` escaped by a backslash and newline / tab as \n / \t; everything else as it is (the apostrophe too)
+RECURSIVE Cat(_)
+Cat(cs) == IF cs = <<>> THEN "" ELSE Head(cs) \o Cat(Tail(cs))
+Esc(ch) == CASE ch = "\"" -> "\\\"" [] ch = "\\" -> "\\\\" [] ch = "\n" -> "\\n" [] ch = "\t" -> "\\t" [] OTHER -> ch
+StrChars == { <<>>, <<"a", " ", "b">>, <<"i", "t", "'", "s">>, <<"q", "\"", "q">>, <<"b", "\\", "s">>, <<"l", "\n", "m", "\t">>, <<"'">>, <<"\"", "'", "\\">> }
+StrOf(cs) == [ty |-> "str", s |-> Cat(cs), cs |-> cs]
 PrintV(c) == CASE c.ty = "int"  -> <<ToString(c.i)>>
+               [] c.ty = "str"  -> <<"\"">> \o [k \in 1..Len(c.cs) |-> Esc(c.cs[k])] \o <<"\"">>
                [] c.ty = "bits" -> PrintBits(c.b)
                [] c.ty = "vec"  -> <<"[ ">> \o PrintVs(c.items, 1) \o <<"]">>
                [] c.ty = "map"  -> <<"{ ">> \o PrintKV(c.kv, 1) \o <<"}">>
@@ -45,7 +53,8 @@ Vectors == {VecV(<<>>)} \cup {VecV(<<a>>) : a \in Atoms} \cup {VecV(<<a, b>>) : 
 Maps == {MapV(<<>>)} \cup {MapV(<<<<IntV(1), a>>>>) : a \in Atoms} \cup {MapV(<<<<IntV(1), a>>, <<IntV(2), VecV(<<b>>)>>>>) : a \in Small, b \in Small}
 
 VARIABLES v, ready
-Init == ready = FALSE /\ v \in Values1 \cup Vectors \cup Maps
+Strings == {StrOf(cs) : cs \in StrChars} \cup {VecV(<<StrOf(cs), IntV(1)>>) : cs \in StrChars} \cup {MapV(<<<<IntV(1), StrOf(cs)>>>>) : cs \in StrChars}
+Init == ready = FALSE /\ v \in Values1 \cup Vectors \cup Maps \cup Strings
 Step == ~ready /\ ready' = TRUE /\ UNCHANGED v
 Spec == Init /\ [][Step]_<<v, ready>>
 Export == ready => PrintT(<<"REPLAY", ToJson([v |-> v, text |-> PrintV(v)])>>)
